@@ -462,6 +462,9 @@ func call(i *interpreter, caller *frame, callpos token.Pos, fn value, args []val
 }
 
 func callSSA(i *interpreter, caller *frame, callpos token.Pos, fn *ssa.Function, args []value, env []value) value {
+	if repl := i.run.overrideFns[fn]; repl != nil {
+		fn = repl
+	}
 	fr := &frame{i: i, caller: caller, fn: fn}
 	if caller != nil {
 		fr.g = caller.g
